@@ -46,14 +46,16 @@ def _natural_sort_key(var: Variable) -> tuple:
     Returns:
         Tuple for sorting: (base_name, index1, index2, ...)
     """
+    # The name itself breaks ties: 'sku_7', 'sku_07' and 'sku_007' have the same
+    # numeric key, and a tie would leave the order to set iteration (hash seed).
     if hasattr(var, "_sort_key"):
-        return var._sort_key
+        return (var._sort_key, var.name)
 
     name = var.name
     # Split into text and number parts
     parts = _NUMBER_SPLIT_RE.split(name)
     # Convert number parts to integers for proper numeric sorting
-    return tuple(int(p) if p.isdigit() else p for p in parts)
+    return (tuple(int(p) if p.isdigit() else p for p in parts), name)
 
 
 def _try_get_single_vector_source(expr: "Expression") -> "VectorVariable | None":
